@@ -10,10 +10,18 @@ A program is JSON-able:
    'create_at': second (nrt),
    'steps': [ {'ops': [op, ...], 'delta': beats | None}, ... ]}
   op = ['tempo', v] | ['etempo', v] | ['beats', v | {'rel': x}] | ['bpb', v]
-     | ['play', quant_spec, how] | ['grid', q, p, refspec] | ['ttnb', q]
+     | ['play', quant_spec, how, end] | ['grid', q, p, refspec] | ['ttnb', q]
      | ['conv', beat, sec] | ['bars', beat, bar] | ['nextbar', beat|None]
      | ['barnow']
   quant_spec = None | number | [q, p] | {'q':, 'p':}  (Quant object)
+  how = 'routine.play' | 'clock.play' | 'clock.play-function' (a plain function
+        handed to clock.play)
+  end = how the played task ends its (only) wake-up after it has recorded the
+        beat it woke on: 'return' | 'gen-end' (generator routine running off its
+        end) | 'raise:<ExceptionName>' (user code failing: the clock logs the
+        error and goes on) | 'stopstream' | 'value:<what>' (hands the clock
+        something that is not a delta).  The events that FOLLOW such an ending
+        are the point: they must wake on their own beat / second.
 """
 
 import math
@@ -22,6 +30,19 @@ NICE_TEMPI = [1, 1.0, 2, 2.0, 0.5, 1.5, 3, 4, 0.25, 60 / 60, 90 / 60, 120 / 60,
               140 / 60, 0.1, 10, 100.0]
 NICE_QUANTS = [1, 2, 3, 4, 8, 16, 1.0, 4.0, 0.5, 0.25, 1.5, 0.125, 6, 12, 5, 7]
 ODD_QUANTS = [0.1, 0.2, 0.3, 1 / 3, 0.7, 2.4, 1e-2, 1e3, 1e4, 0.75, 2.5]
+RAISES = ['raise:RuntimeError', 'raise:ZeroDivisionError', 'raise:KeyError',
+          'raise:ValueError', 'raise:UserError']
+ODD_ENDS = ['gen-end', 'stopstream', 'value:str', 'value:None', 'value:True',
+            'value:inf', 'value:list']
+
+
+def gen_end(rng):
+    c = rng.random()
+    if c < 0.45:
+        return 'return'
+    if c < 0.8:
+        return rng.choice(RAISES)
+    return rng.choice(ODD_ENDS)
 
 
 def gen_tempo(rng, lo=1e-3, hi=1e3):
@@ -183,7 +204,7 @@ def gen_program(rng, kind):
                                         float(rng.randint(-100, 100))])
                     ops.append(['beats', v])
                     cur = cur + v['rel'] if isinstance(v, dict) else v
-                elif c < 0.85:
+                elif c < (0.75 if rt else 0.85):
                     v = rng.choice([3, 4, 5, 6, 7, 2, 1, 12, 3.0, 4.0, 3.5, 0.5,
                                     2.5, 9, rng.uniform(0.5, 16)])
                     ops.append(['bpb', v]); bpb = float(v)
@@ -192,7 +213,8 @@ def gen_program(rng, kind):
                     p = gen_phase(rng, q)
                     ops.append(['play', rng.choice(
                         [None, quant_spec(rng, q, p), quant_spec(rng, q, p)]),
-                        rng.choice(['routine.play', 'clock.play'])])
+                        rng.choice(['routine.play', 'clock.play',
+                                    'clock.play-function']), gen_end(rng)])
             else:
                 c = rng.random()
                 if c < (0.8 if kind == 'grid' else 0.4):
@@ -237,6 +259,8 @@ def features(prog):
         'tempo': 'tempo' in names, 'etempo': 'etempo' in names,
         'beats': 'beats' in names, 'bpb': 'bpb' in names,
         'play': 'play' in names,
+        'failing_task': any(op[0] == 'play' and len(op) > 3
+                            and op[3].startswith('raise') for op in ops),
         'grid': sum(n == 'grid' for n in names),
         'grid_after_meter': any(
             a == 'bpb' and 'grid' in names[i:] for i, a in enumerate(names)),
